@@ -27,7 +27,7 @@ ASSUMPTIONS = [
     '(a real clock never measures a zero round trip)',
     'with idle_time 0 (disabled) the "terminating endpoint still closes" clause is not judged: no timer is configured',
 ]
-EXHAUSTIVE_PART = 'grid local keepalive x peer keepalive x idle time x {silence, peer keepalive at deadline-1ms} for active and passive'
+EXHAUSTIVE_PART = 'grid local keepalive x peer keepalive x idle time x {silence, peer keepalive at deadline-1ms} for active and passive; grid peer segment MRU x initial segment size x target ACK time for the size controller'
 
 KEEPALIVES = [0, 1, 2, 5, 65535]
 IDLES = [0, 1, 3, 10]
@@ -80,6 +80,8 @@ def strategy(tier):
 
 
 def enumerate_cases(tier):
+    for case in _controller_cases():
+        yield case
     for active, ka, pka, idle in itertools.product((False, True), KEEPALIVES, KEEPALIVES, IDLES):
         base = {'active': active, 'keepalive': ka, 'idle': idle, 'seg_init': 1000, 'target_ack': None,
                 'peer': {'keepalive': pka, 'segment_mru': 64, 'transfer_mru': 2 ** 40, 'nodeid': 'dtn://peer/'},
@@ -91,6 +93,15 @@ def enumerate_cases(tier):
         if idle:
             yield dict(base, script=[['peer-keepalive', idle * 1000 - 1], ['peer-keepalive', idle * 1000 - 1], ['silent', 1]])
             yield dict(base, script=[['silent', idle * 1000 - 1], ['user-term', 0], ['silent', 1]])
+
+
+def _controller_cases():
+    ''' Adaptive segment sizing against every peer MRU class, with ACKs arriving after various delays. '''
+    for active, mru, seg_init, target in itertools.product((False, True), (1, 5, 64, 10239, 10240, 10241), (1, 1000, 100000), (1, 5)):
+        yield {'active': active, 'keepalive': 0, 'idle': 0, 'seg_init': seg_init, 'target_ack': target,
+               'peer': {'keepalive': 0, 'segment_mru': mru, 'transfer_mru': 2 ** 40, 'nodeid': 'dtn://peer/'},
+               'script': [['user-send', 1, 40000, 7], ['ack', 1, 5], ['ack', 3, 1], ['user-send', 1, 40000, 8], ['ack', 2, 999],
+                          ['ack', 1, 10], ['ack', 1, 3000]], 'horizon': 0}
 
 
 def pinned_cases():
